@@ -141,7 +141,7 @@ func shortKey(key string) string {
 }
 
 func (g *FnGen) contractEnv(fc *FuncContract, ct *callTarget, cur, old *State, args []TVal) *Env {
-	env := &Env{c: g.c, g: g, cur: cur, old: old, vars: map[string]TVal{}, post: true}
+	env := &Env{c: g.c, g: g, cur: cur, hst: cur, old: old, vars: map[string]TVal{}, post: true}
 	if p := g.c.typesPkgs[fc.PkgPath]; p != nil {
 		env.pkg = p
 	}
